@@ -334,7 +334,13 @@ class Interp:
                 if isinstance(v, ast.Constant):
                     parts.append(str(v.value))
                 else:
-                    parts.append(str(self.eval(v.value, env, f)))  # type: ignore[attr-defined]
+                    val = self.eval(v.value, env, f)  # type: ignore[attr-defined]
+                    spec = ""
+                    if v.format_spec is not None:  # type: ignore[attr-defined]
+                        spec = self.eval(v.format_spec, env, f)  # type: ignore[attr-defined]
+                    if v.conversion == ord("r"):  # type: ignore[attr-defined]
+                        val = repr(val)
+                    parts.append(format(val, spec) if spec else str(val))
             return "".join(parts)
         if isinstance(e, (ast.ListComp, ast.SetComp, ast.GeneratorExp)):
             return self.comprehension(e, env, f)
@@ -420,6 +426,9 @@ class Interp:
                 mm = self.P.lookup_method(ci, e.attr)
                 if mm:
                     return ("boundmethod", mm, base)
+        if not isinstance(base, (ClassVal, ExternalObj, ExcVal, ModuleInfo, FuncInfo, dict, list, tuple, set, str, int, float, bool, type(None))) \
+                and hasattr(base, e.attr):
+            return getattr(base, e.attr)  # object handed in by the check through `externals`
         if isinstance(base, ExcVal) and e.attr == "args":
             return (base.kwargs.get("message", ""), base.code)
         if isinstance(base, ModuleInfo):
